@@ -13,9 +13,9 @@ import (
 // in the source (Perl flags, simplified, compiled) — the one the real
 // matcher runs — executed by a symbolic Pike VM (leftmost-first).
 type regexModel struct {
-	pattern string
-	prog    *syntax.Prog
-	ncap    int
+	pattern       string
+	prog          *syntax.Prog
+	ncap          int
 	anchoredStart bool
 }
 
